@@ -1,0 +1,26 @@
+//go:build verif
+
+// Contracts for package messages (comment-only, read by /verif/govc; never compiled
+// into the product: the build tag "verif" is not set by any build of peerswap).
+package messages
+
+// C21: the protocol numbering. Each message type constant has its protocol
+// number; all are odd and within 42069..42085.
+//@ lemma C21.numbers
+//@ property C21
+//@ show swap-in-request: MESSAGETYPE_SWAPINREQUEST == 42069
+//@ show swap-out-request: MESSAGETYPE_SWAPOUTREQUEST == 42071
+//@ show swap-in-agreement: MESSAGETYPE_SWAPINAGREEMENT == 42073
+//@ show swap-out-agreement: MESSAGETYPE_SWAPOUTAGREEMENT == 42075
+//@ show opening-tx-broadcasted: MESSAGETYPE_OPENINGTXBROADCASTED == 42077
+//@ show cancel: MESSAGETYPE_CANCELED == 42079
+//@ show coop-close: MESSAGETYPE_COOPCLOSE == 42081
+//@ show poll: MESSAGETYPE_POLL == 42083
+//@ show request-poll: MESSAGETYPE_REQUEST_POLL == 42085
+
+// A received type string is accepted only if it is one of the nine numbers.
+//@ func PeerswapCustomMessageType
+//@ property C21
+//@ ensures only-peerswap-types: result1 == nil ==> (result0 >= 42069 && result0 <= 42085 && result0%2 == 1)
+//@ ensures rejected-is-zero: result1 != nil ==> result0 == 0
+//@ assigns nothing
